@@ -56,11 +56,11 @@ package messaging
 //@   ensures result.Src == msgSrc(self) && result.Dst == msgDst(self)
 
 // ---- the view and its invariant ----
+// the two buffers never share a backing array (both are nil in a new port); needed because a push rewrites the pushed
+// buffer's backing array (frame elems(...)).
+//@ pred sep(p) = (ref(p.incomingBuf.elements) != ref(p.outgoingBuf.elements) || (ref(p.incomingBuf.elements) == 0 && len(p.incomingBuf.elements) == 0 && len(p.outgoingBuf.elements) == 0)) && ref(p.incomingBuf.elements) <= allocTop && ref(p.outgoingBuf.elements) <= allocTop
 // sizes never exceed capacity; a nil Msg is not a message (Retrieve*/Peek* use nil for "empty").
-//@ pred portWF(p) = queueing.bufWF(p.incomingBuf) && queueing.bufWF(p.outgoingBuf) && (forall i in 0..len(p.incomingBuf.elements) :: p.incomingBuf.elements[i] != nil) && (forall i in 0..len(p.outgoingBuf.elements) :: p.outgoingBuf.elements[i] != nil)
-// the two buffers do not share a backing array (both nil when new). ASSUMED at Send/Deliver, see the report: the C14
-// contracts of PushTyped/Pop do not say which backing array b.elements has afterwards, so it cannot be re-established.
-//@ pred sep(p) = ref(p.incomingBuf.elements) != ref(p.outgoingBuf.elements) || (len(p.incomingBuf.elements) == 0 && len(p.outgoingBuf.elements) == 0)
+//@ pred portWF(p) = sep(p) && queueing.bufWF(p.incomingBuf) && queueing.bufWF(p.outgoingBuf) && (forall i in 0..len(p.incomingBuf.elements) :: p.incomingBuf.elements[i] != nil) && (forall i in 0..len(p.outgoingBuf.elements) :: p.outgoingBuf.elements[i] != nil)
 //@ pred cfgSame(p) = p.incomingBuf.cap == old(p.incomingBuf.cap) && p.outgoingBuf.cap == old(p.outgoingBuf.cap) && p.incomingBuf.name == old(p.incomingBuf.name) && p.outgoingBuf.name == old(p.outgoingBuf.name)
 //@ pred inFull(p) = len(p.incomingBuf.elements) > 0 && len(p.incomingBuf.elements) == int(p.incomingBuf.cap)
 //@ pred outFull(p) = len(p.outgoingBuf.elements) > 0 && len(p.outgoingBuf.elements) == int(p.outgoingBuf.cap)
@@ -89,22 +89,6 @@ package messaging
 //@   property C11
 //@   label C11.candeliver
 //@   ensures result <==> len(p.incomingBuf.elements) < int(p.incomingBuf.cap)
-//@   assigns nothing
-
-//@ fn (*defaultPort).PeekIncoming
-//@   property C11
-//@   label C11.peekincoming.empty
-//@   ensures len(p.incomingBuf.elements) == 0 ==> result == nil
-//@   label C11.peekincoming.front
-//@   ensures len(p.incomingBuf.elements) > 0 ==> result == p.incomingBuf.elements[0]
-//@   assigns nothing
-
-//@ fn (*defaultPort).PeekOutgoing
-//@   property C11
-//@   label C11.peekoutgoing.empty
-//@   ensures len(p.outgoingBuf.elements) == 0 ==> result == nil
-//@   label C11.peekoutgoing.front
-//@   ensures len(p.outgoingBuf.elements) > 0 ==> result == p.outgoingBuf.elements[0]
 //@   assigns nothing
 
 //@ fn (*defaultPort).Name
@@ -153,21 +137,21 @@ package messaging
 
 //@ fn portMustBeMsgSrc
 //@   property C11
-//@   panics any
+//@   requires hastype(port, "*defaultPort")
+//@   panics msg == nil || as(port, "*defaultPort").name != msgSrc(msg)
 //@   assigns nothing
 
+//@ pred msgInvalid(p, msg) = msg == nil || p.name != msgSrc(msg) || msgDst(msg) == "" || msgSrc(msg) == msgDst(msg)
 //@ fn (*defaultPort).msgMustBeValid
 //@   property C11
-//@   panics any
-//@   label C11.valid.nonnil
-//@   ensures msg != nil && msgDst(msg) != "" && msgSrc(msg) != msgDst(msg)
+//@   panics msgInvalid(p, msg)
 //@   assigns nothing
 
 // ---- Send: append to out, NotifySend exactly when out was empty ----
 //@ fn (*defaultPort).Send
 //@   property C11
-//@   requires portWF(p) && sep(p)
-//@   panics any
+//@   requires portWF(p)
+//@   panics msgInvalid(p, msg) || len(p.outgoingBuf.elements) >= int(p.outgoingBuf.cap) || (len(p.outgoingBuf.elements) == 0 && p.conn == nil)
 //@   label C11.send.len
 //@   ensures len(p.outgoingBuf.elements) == old(len(p.outgoingBuf.elements)) + 1
 //@   label C11.send.prefix
@@ -176,10 +160,6 @@ package messaging
 //@   ensures p.outgoingBuf.elements[old(len(p.outgoingBuf.elements))] == msg
 //@   label C11.send.wf
 //@   ensures portWF(p) && cfgSame(p)
-//@   label C11.send.valid
-//@   ensures msg != nil && msgDst(msg) != "" && msgSrc(msg) != msgDst(msg)
-//@   label C11.send.notfull
-//@   ensures old(len(p.outgoingBuf.elements)) < int(p.outgoingBuf.cap)
 //@   label C11.send.notify
 //@   ensures nSend == old(nSend) + (old(len(p.outgoingBuf.elements)) == 0 ? 1 : 0)
 //@   label C11.send.othercounters
@@ -193,7 +173,7 @@ package messaging
 // ---- Deliver: append to in, NotifyRecv exactly when in was empty (and there is an owner) ----
 //@ fn (*defaultPort).Deliver
 //@   property C11
-//@   requires portWF(p) && sep(p) && msg != nil
+//@   requires portWF(p) && msg != nil
 //@   panics len(p.incomingBuf.elements) >= int(p.incomingBuf.cap)
 //@   label C11.deliver.len
 //@   ensures len(p.incomingBuf.elements) == old(len(p.incomingBuf.elements)) + 1
@@ -214,6 +194,29 @@ package messaging
 //@   label C11.deliver.outgoing.contents
 //@   ensures forall i in 0..len(p.outgoingBuf.elements) :: p.outgoingBuf.elements[i] == old(p.outgoingBuf.elements[i])
 //@   assigns p.incomingBuf.elements, elems(p.incomingBuf.elements), nRecv, recvPort
+
+// ---- NotifyAvailable (called by the connection): forwarded to the owner as NotifyPortFree ----
+//@ fn (*defaultPort).NotifyAvailable
+//@   property C11
+//@   label C11.notifyavailable
+//@   ensures nFree == old(nFree) + (p.comp != nil ? 1 : 0) && (p.comp != nil ==> freePort == p)
+//@   assigns nFree, freePort
+
+//@ fn (*defaultPort).PeekIncoming
+//@   property C11
+//@   label C11.peekincoming.empty
+//@   ensures len(p.incomingBuf.elements) == 0 ==> result == nil
+//@   label C11.peekincoming.front
+//@   ensures len(p.incomingBuf.elements) > 0 ==> result == p.incomingBuf.elements[0]
+//@   assigns nothing
+
+//@ fn (*defaultPort).PeekOutgoing
+//@   property C11
+//@   label C11.peekoutgoing.empty
+//@   ensures len(p.outgoingBuf.elements) == 0 ==> result == nil
+//@   label C11.peekoutgoing.front
+//@   ensures len(p.outgoingBuf.elements) > 0 ==> result == p.outgoingBuf.elements[0]
+//@   assigns nothing
 
 // ---- RetrieveIncoming: pop the oldest incoming message, NotifyAvailable exactly when in was full ----
 //@ fn (*defaultPort).RetrieveIncoming
@@ -257,10 +260,17 @@ package messaging
 //@   ensures countersSameBut(false, true, false, false)
 //@   assigns p.outgoingBuf.elements, nFree, freePort
 
-// ---- NotifyAvailable (called by the connection): forwarded to the owner as NotifyPortFree ----
-//@ fn (*defaultPort).NotifyAvailable
+// ---- NewPort: two empty buffers of the requested capacities ----
+//@ fn NewPort
 //@   property C11
-//@   label C11.notifyavailable
-//@   ensures nFree == old(nFree) + (p.comp != nil ? 1 : 0) && (p.comp != nil ==> freePort == p)
-//@   assigns nFree, freePort
-
+//@   label C11.new.type
+//@   ensures hastype(result, "*defaultPort") && fresh(as(result, "*defaultPort"))
+//@   label C11.new.empty
+//@   ensures len(as(result, "*defaultPort").incomingBuf.elements) == 0 && len(as(result, "*defaultPort").outgoingBuf.elements) == 0
+//@   label C11.new.cap
+//@   ensures as(result, "*defaultPort").incomingBuf.cap == incomingBufCap && as(result, "*defaultPort").outgoingBuf.cap == outgoingBufCap
+//@   label C11.new.owner
+//@   ensures as(result, "*defaultPort").comp == comp && as(result, "*defaultPort").conn == nil && as(result, "*defaultPort").name == name
+//@   label C11.new.wf
+//@   ensures portWF(as(result, "*defaultPort"))
+//@   assigns nothing
